@@ -19,6 +19,11 @@ legs
   read_bits      every single-bit flip of the response to a MAC'd read (enum)
   read_mac       read_with_mac over block selections, genuine and with random
                  changes in transit (gen)
+  shapes         well-formed responses of another length (fewer / no / more
+                 blocks than requested, a shorter or longer MAC'd read of the
+                 same session replayed) for every read of authenticate() and
+                 for read_with_mac (enum); the gen legs draw from the same
+                 family
   felica_protect protect(pw) then authenticate(pw) / authenticate(other) (gen)
   felica_hist_enum / felica_history
                  histories on ONE tag object: authenticate, protect, plain
@@ -110,12 +115,56 @@ def call(ctx, fn, *args):
         return "other", e
 
 
-def apply_ops(rsp, ops):
-    """modify a response frame; ops is JSON data from the case"""
+def read_blocks(rsp):
+    """16-byte blocks of a well-formed Read Without Encryption response with
+    status 0000 (LEN 07 IDm 00 00 count data...), else None"""
+    if len(rsp) < 13 or rsp[1] != 0x07 or rsp[10] != 0 or \
+            (len(rsp) - 13) % 16:
+        return None
+    return [bytes(rsp[i:i + 16]) for i in range(13, len(rsp), 16)]
+
+
+def apply_ops(rsp, ops, seen=None):
+    """modify a response frame; ops is JSON data from the case.  ``seen``:
+    {relative index: (cmd, rsp)} of the earlier exchanges since arming.
+
+    length-changing, frame-structure aware operations (Read responses only,
+    others pass unchanged):
+      blocks   the response carries the blocks ``keep`` (indices into the
+               genuine blocks modulo their number, [] = none; -1 = a block
+               of sixteen ``fill`` bytes) instead of the blocks requested;
+               ``count``: "fix" = block count byte says how many follow,
+               "keep" = genuine count byte, "drop" = no count byte at all
+               (frame ends with the status bytes; keep is ignored), or an
+               int; the LEN byte is made consistent unless ``rawlen``
+      earlier  the frame is replaced by the response to exchange ``y`` of
+               the same session (when there was one)"""
     b = bytearray(rsp)
     for op in ops:
         k = op["op"]
-        if k == "bit" and b:
+        if k == "blocks":
+            blks = read_blocks(bytes(b))
+            if blks is None:
+                continue
+            head = bytearray(b[0:13])
+            cnt = op.get("count", "fix")
+            if cnt == "drop":
+                b = head[0:12]
+            else:
+                sel = [bytes([op.get("fill", 0)]) * 16 if i < 0 or not blks
+                       else blks[i % len(blks)] for i in op["keep"]]
+                if cnt == "fix":
+                    head[12] = len(sel) & 255
+                elif cnt != "keep":
+                    head[12] = cnt & 255
+                b = head + b"".join(sel)
+            if not op.get("rawlen"):
+                b[0] = len(b) & 255
+        elif k == "earlier":
+            got = (seen or {}).get(op["y"])
+            if got is not None and got[1] is not None:
+                b = bytearray(got[1])
+        elif k == "bit" and b:
             b[(op["bit"] // 8) % len(b)] ^= 1 << (op["bit"] % 8)
         elif k == "xor" and b:
             b[op["pos"] % len(b)] ^= op["mask"]
@@ -175,14 +224,16 @@ class Tamper(object):
 
     def __call__(self, idx, cmd, rsp):
         rel = idx - self.base
-        self.seen[rel] = (cmd, rsp)
         self.out[rel] = rsp
         ops = self.plan.get(rel)
         if ops is None:
             ops = self.plan.get(str(rel))
         if ops is None:
+            self.seen[rel] = (cmd, rsp)
             return rsp
-        new = ops(rel, cmd, rsp) if callable(ops) else apply_ops(rsp, ops)
+        new = ops(rel, cmd, rsp) if callable(ops) else \
+            apply_ops(rsp, ops, self.seen)
+        self.seen[rel] = (cmd, rsp)
         self.out[rel] = new
         if new != rsp:
             self.changed = True
@@ -624,6 +675,44 @@ def frame_ops(draw, hot=(10, 40)):
 
 
 @st.composite
+def shape_ops(draw, n):
+    """a length-changing, well-framed substitution of a Read response that
+    carries ``n`` blocks: fewer blocks (also none), more blocks, blocks
+    dropped from the front / middle / end, the same block repeated; block
+    count byte consistent, genuine or arbitrary; the frame cut right behind
+    the status bytes; optionally one more byte change on top"""
+    kind = draw(st.sampled_from(["none", "none", "prefix", "suffix", "subset",
+                                 "more", "any", "drop"]))
+    idx = st.integers(-1, n - 1)
+    if kind == "none":
+        keep = []
+    elif kind == "prefix":
+        keep = list(range(draw(st.integers(0, max(0, n - 1)))))
+    elif kind == "suffix":
+        keep = list(range(draw(st.integers(1, n)), n))
+    elif kind == "subset":
+        keep = sorted(draw(st.sets(st.integers(0, n - 1), max_size=n)))
+    elif kind == "more":
+        keep = list(range(n)) + draw(st.lists(idx, min_size=1, max_size=3))
+    else:
+        keep = draw(st.lists(idx, max_size=n + 2))
+    op = {"op": "blocks", "keep": keep,
+          "count": "drop" if kind == "drop" else draw(st.sampled_from(
+              ["fix", "fix", "fix", "keep", 0, 1, n])),
+          "fill": draw(st.sampled_from([0, 0xFF]))}
+    if draw(st.integers(0, 7)) == 0:
+        op["rawlen"] = True
+    ops = [op]
+    if draw(st.integers(0, 5)) == 0:
+        ops.append({"op": "xor", "pos": draw(st.integers(0, 13 + 16 * n)),
+                    "mask": draw(st.integers(1, 255))})
+    return ops
+
+
+AUTH_READ_BLOCKS = {45: 2, 29: 1}       # frame length -> blocks it carries
+
+
+@st.composite
 def gen_auth_tamper(draw):
     prod = draw(prod_)
     key = draw(key16)
@@ -642,9 +731,21 @@ def gen_auth_tamper(draw):
                           "useed": draw(useed_)}
         return case
     plan = {}
+    lens = AUTH_RSP_LEN[(prod, right)]
     for x in draw(st.lists(st.sampled_from([2, 2] + list(range(1, nx + 1))),
                            min_size=1, max_size=2, unique=True)):
-        plan[str(x)] = draw(frame_ops())
+        how = draw(st.sampled_from(["bytes", "bytes", "shape", "earlier"]))
+        if how == "shape" and lens[x - 1] in AUTH_READ_BLOCKS:
+            plan[str(x)] = draw(shape_ops(AUTH_READ_BLOCKS[lens[x - 1]]))
+        elif how == "earlier" and any(ln != lens[x - 1]
+                                      for ln in lens[:x - 1]):
+            # only a response of another length: an equally long genuine
+            # read of the same session carries a valid MAC, and the FeliCa
+            # Lite read MAC does not cover the block numbers
+            plan[str(x)] = [{"op": "earlier", "y": draw(st.sampled_from(
+                [y for y in range(1, x) if lens[y - 1] != lens[x - 1]]))}]
+        else:
+            plan[str(x)] = draw(frame_ops())
     case["plan"] = plan
     return case
 
@@ -677,6 +778,22 @@ def selection_valid(sim, blocks):
         all(b in sim.READABLE for b in blocks)
 
 
+def replayed_read(ctx, clf, tag, sub):
+    """plan that delivers the genuine response of read_with_mac(*sub), read
+    just now in the same session, in place of the next response; None when
+    that read did not yield data"""
+    n0 = clf.device.exchanges
+    out = call(ctx, tag.read_with_mac, *sub)
+    if out[0] != "ok" or out[1] is None or clf.device.exchanges != n0 + 1:
+        ctx.label("replay:source-read-gave-no-data")
+        return None
+    frame = clf.device.xlog[-1][2]
+    if not isinstance(frame, bytes):
+        return None
+    ctx.label("replay:read%d-for-another-read" % len(sub))
+    return [{"op": "replace", "data": frame}]
+
+
 def run_read(case, ctx):
     prod, blocks = case["prod"], case["blocks"]
     s = auth_session(ctx, case)
@@ -686,6 +803,8 @@ def run_read(case, ctx):
     valid = selection_valid(sim, blocks)
     genuine = sim.genuine(*blocks) if valid else None
     plan = case.get("plan")
+    if case.get("replay"):
+        plan = replayed_read(ctx, clf, tag, case["replay"])
     t = Tamper(clf.device, {"1": plan} if plan else {})
     clf.device.tamper = t
     try:
@@ -742,6 +861,21 @@ def enum_read_bits(tier, seed):
                            "plan": [{"op": "bit", "bit": bit}]}
 
 
+def replay_selection(blocks, pool):
+    """block selection of ANOTHER read_with_mac of the same session whose
+    genuine response (valid MAC included) is delivered instead: a different
+    number of blocks (mostly fewer, a part of the requested ones).  A
+    selection of the same size is not generated: the FeliCa Lite read MAC
+    does not cover the block numbers, which no reader can make up for."""
+    n = len(blocks)
+    part = st.lists(st.sampled_from(blocks), min_size=1, max_size=3)
+    other = st.lists(st.sampled_from(pool), min_size=1, max_size=3)
+    head = st.integers(1, max(1, n - 1)).map(lambda k: blocks[:k])
+    more = st.lists(st.sampled_from(pool), min_size=1, max_size=2).map(
+        lambda x: (blocks + x)[:3])
+    return st.one_of(head, part, other, more).filter(lambda b: len(b) != n)
+
+
 @st.composite
 def gen_read(draw):
     prod = draw(prod_)
@@ -757,9 +891,79 @@ def gen_read(draw):
     i = draw(st.integers(0, 5))
     case = {"prod": prod, "key": seeded_key(draw(st.integers(0, 1)), 4000 + i),
             "useed": i, "fill": draw(st.integers(0, 3)), "blocks": blocks}
-    if draw(st.integers(0, 3)) > 0:
+    how = draw(st.sampled_from(["genuine", "bytes", "bytes", "shape",
+                                "replay"]))
+    if how == "bytes":
         case["plan"] = draw(frame_ops(hot=(13, 13 + 16 * n + 8)))
+    elif how == "shape":
+        case["plan"] = draw(shape_ops(n + 1))
+    elif how == "replay":
+        case["replay"] = draw(replay_selection(blocks, pool))
     return case
+
+
+# ------------------------------------------- responses of another length
+def block_shapes(n):
+    """block selections for a response that should carry n blocks: every
+    in-order selection of fewer blocks (also none), the n blocks followed by
+    one more (one of them again, or a filler block), the n blocks twice"""
+    out = []
+    for mask in range(2 ** n - 1):
+        out.append([i for i in range(n) if mask >> i & 1])
+    for extra in list(range(n)) + [-1]:
+        out.append(list(range(n)) + [extra])
+    out.append(list(range(n)) * 2)
+    return out
+
+
+def shape_plans(n):
+    for keep in block_shapes(n):
+        for count in ("fix", "keep"):
+            yield [{"op": "blocks", "keep": keep, "count": count}]
+    yield [{"op": "blocks", "keep": [], "count": "drop"}]
+
+
+def enum_shapes(tier, seed):
+    ncfg = 2 if tier == "quick" else 12
+    pool = list(range(15)) + [0x82, 0x83, 0x84, 0x85, 0x86, 0x88]
+    for i in range(ncfg):
+        key = seeded_key(seed, 9000 + i)
+        wrong = flip_bits(key, [((i * 29) % 16) * 8 + 1 + i % 7])
+        h = seeded_key(seed, 9500 + i, 8)
+        for prod in ("lite", "lites"):
+            # the reads inside authenticate()
+            for right in (True, False):
+                for x, ln in enumerate(AUTH_RSP_LEN[(prod, right)], 1):
+                    if ln not in AUTH_READ_BLOCKS:
+                        continue
+                    for plan in shape_plans(AUTH_READ_BLOCKS[ln]):
+                        yield {"prod": prod, "key": key,
+                               "pw": key if right else wrong,
+                               "useed": (seed + 7907 * i) & 0xFFFFFFFF,
+                               "fill": i, "rsp_len": ln, "plan": {str(x): plan}}
+            # read_with_mac in an authenticated session
+            p = pool + ([0x90, 0x92] if prod == "lites" else [])
+            for n in (1, 2, 3):
+                blocks = [p[h[n + j] % len(p)] for j in range(n)]
+                base = {"prod": prod, "key": key, "fill": i,
+                        "useed": (seed + 104723 * i) & 0xFFFFFFFF,
+                        "blocks": blocks}
+                for plan in shape_plans(n + 1):
+                    yield dict(base, plan=plan, rsp_len=13 + 16 * (n + 1))
+                subs = [blocks[:k] for k in range(1, n)] + \
+                    [blocks[k:] for k in range(1, n)] + \
+                    [[b] for b in blocks if n > 1] + \
+                    [(blocks + blocks)[:n + 1]]
+                for sub in subs:
+                    if len(sub) != n and len(sub) <= 3:
+                        yield dict(base, replay=sub)
+
+
+def run_shape(case, ctx):
+    if "blocks" in case:
+        run_read(case, ctx)
+    else:
+        run_auth_tampered(case, ctx)
 
 
 # --------------------------------------------------------- felica_protect
@@ -1015,6 +1219,8 @@ def run_felica_history(case, ctx):
                 ctx.label("hist:rmac-skipped")
                 continue
             blocks, plan = step["blocks"], step.get("plan")
+            if step.get("replay"):
+                plan = replayed_read(ctx, clf, tag, step["replay"])
             valid = selection_valid(sim, blocks)
             genuine = sim.genuine(*blocks) if valid else None
             t = Tamper(clf.device, {"1": plan} if plan else {})
@@ -1170,8 +1376,14 @@ def gen_felica_history(draw):
                 ([0x90, 0x92] if prod == "lites" else [])
             step = {"op": "rmac", "blocks": draw(st.lists(
                 st.sampled_from(pool), min_size=n, max_size=n))}
-            if draw(st.integers(0, 3)) == 0:
+            how = draw(st.sampled_from(["genuine"] * 5 + ["bytes", "bytes",
+                                                          "shape", "replay"]))
+            if how == "bytes":
                 step["plan"] = draw(frame_ops(hot=(13, 13 + 16 * n + 8)))
+            elif how == "shape":
+                step["plan"] = draw(shape_ops(n + 1))
+            elif how == "replay":
+                step["replay"] = draw(replay_selection(step["blocks"], pool))
             steps.append(step)
     return {"prod": prod, "count_rc": draw(st.booleans()), "key0": key0,
             "ndef": draw(st.sampled_from([True, True, True, False])),
@@ -1487,9 +1699,14 @@ LEGS = [
         gen=lambda tier: gen_auth_tamper(), quick=1000, thorough=24000,
         shards_quick=4, shards_thorough=16, nt_floor=0.25,
         rule="1-2 response frames of the authentication changed by 1-4 "
-             "xor/set/bit/copy/truncate/append operations or replaced by the "
-             "frame of another session of the same tag; non-trivial = change "
-             "inside data/MAC/WCNT bytes or wrong password."),
+             "xor/set/bit/copy/truncate/append operations, or (Read "
+             "responses) re-shaped to carry fewer / no / more / repeated / "
+             "reordered blocks with consistent or inconsistent block count "
+             "byte, or replaced by an earlier response of the same session "
+             "that has another length, or by the frame of another session of "
+             "the same tag; "
+             "non-trivial = change inside data/MAC/WCNT bytes or wrong "
+             "password."),
     Leg("read_bits", run=run_read, enum=enum_read_bits, exhaustive=True,
         shards_quick=4, shards_thorough=12,
         rule="every single-bit flip of the response to read_with_mac of "
@@ -1499,9 +1716,28 @@ LEGS = [
         quick=2000, thorough=48000, shards_quick=4, shards_thorough=16,
         nt_floor=0.25,
         rule="read_with_mac of 1-4 blocks out of 0..14, 80h, 82h..88h, "
-             "(90h, 92h), occasionally illegal numbers, genuine or with 1-4 "
-             "random frame modifications; non-trivial = valid genuine read "
+             "(90h, 92h), occasionally illegal numbers, genuine, with 1-4 "
+             "random frame modifications, re-shaped to fewer / no / more / "
+             "repeated blocks (well-formed frame), or answered with the "
+             "genuine response of a read_with_mac of another number of "
+             "blocks of the same session; non-trivial = valid genuine read "
              "or a modification inside data/MAC."),
+    Leg("shapes", run=run_shape, enum=enum_shapes, exhaustive=True,
+        shards_quick=2, shards_thorough=8,
+        rule="length-changing substitutions of Read responses that stay "
+             "well-formed (LEN byte consistent, response code, IDm, status "
+             "0000): the response carries every in-order selection of fewer "
+             "blocks than requested (also none), one block more (a genuine "
+             "block again / a filler block), all blocks twice, with the block "
+             "count byte consistent or genuine, or ends right behind the "
+             "status bytes; applied to each read inside authenticate() (ID+MAC, "
+             "Lite-S also WCNT and the MAC_A check; right and wrong password) "
+             "and to read_with_mac of 1, 2, 3 blocks; plus the genuine "
+             "response (valid MAC) of a read_with_mac of fewer / more blocks "
+             "of the same session delivered instead; 2 (quick) / 12 (thorough) "
+             "seeded configurations, both products.  Oracle as auth_tamper / "
+             "read_mac; non-trivial = data/MAC bytes differ from the genuine "
+             "frame or wrong password."),
     Leg("felica_protect", run=run_felica_protect,
         gen=lambda tier: gen_felica_protect(), quick=400, thorough=9000,
         shards_quick=4, shards_thorough=16, nt_floor=0.12,
@@ -1537,8 +1773,9 @@ LEGS = [
              "protect (password forms and shapes of felica_protect, "
              "read_protect, protect_from), write_without_mac / "
              "write_with_mac of a block 0..14, NDEF write, NDEF re-read, "
-             "read_with_mac of 1-3 blocks (a quarter with 1-4 random frame "
-             "modifications); Lite-S with either write counter policy and a "
+             "read_with_mac of 1-3 blocks (four in nine with 1-4 random "
+             "frame modifications, a re-shaped block list or the response of "
+             "a read of another size); Lite-S with either write counter policy and a "
              "generated counter start value (byte carries); oracles as in "
              "felica_hist_enum; non-trivial = an authenticate that is not "
              "the first operation on the object."),
